@@ -69,7 +69,8 @@ HasConfig(vc, d) ==
 Stored(vc, d) == IF vc \in {"h264", "h265"} THEN ToLengthPrefixed(d) ELSE d
 
 ValidAudio(ac, d) == IF ac = "aac" THEN ValidAdts(d) ELSE IF ac = "opus" THEN ValidOpus(d) ELSE FALSE
-StoredA(ac, d) == IF ac = "aac" THEN AdtsPayload(d) ELSE d
+(* total: an implementation that accepts a frame shorter than an ADTS header (a C04 signature) stores nothing judged *)
+StoredA(ac, d) == IF ac = "aac" THEN (IF Len(d) >= 7 THEN AdtsPayload(d) ELSE << >>) ELSE d
 
 (* Key-frame detection of the convenience API (DESIGN.md A.7) *)
 DetectKey(vc, d, nAccepted) ==
@@ -325,6 +326,9 @@ ExpCts(S, i) == S[i].pt - S[i].dt
 Wide(S, i) == S[i].pt = SAT \/ S[i].dt = SAT \/ ExpCts(S, i) > cfg.i32
               \/ -ExpCts(S, i) > (IF "i32n" \in DOMAIN cfg THEN cfg.i32n ELSE cfg.i32)
 
+(* a ctts / stts that stops short of the sample count leaves samples without the field *)
+SCts(T, i) == IF "c" \in DOMAIN T.s[i] THEN T.s[i].c ELSE 0
+SDur(T, i) == IF "d" \in DOMAIN T.s[i] THEN T.s[i].d ELSE 0
 C03Track(S, T, site) ==
     LET n == IF Len(S) < NSamp(T) THEN Len(S) ELSE NSamp(T)
         timed == \A i \in 1..n : "d" \in DOMAIN T.s[i]
@@ -336,7 +340,8 @@ C03Track(S, T, site) ==
                     IF \E i \in 1..(n-1) : T.s[i].d # ExpDur(S, i) THEN "inner" ELSE "last")} ELSE {})
     \cup (IF \E i \in 1..n : ExpDur(S, i) # None /\ "dr" \in DOMAIN T.s[i] /\ T.s[i].dr # 0
           THEN {Sig("C03", "Duration", site, "off-grid")} ELSE {})
-    \cup (IF \E i \in 1..n : ~Wide(S, i) /\ T.s[i].c # ExpCts(S, i)
+    \cup (IF \E i \in 1..n : "c" \notin DOMAIN T.s[i] THEN {Sig("C03", "CompositionOffset", site, "ctts-short")}
+          ELSE IF \E i \in 1..n : ~Wide(S, i) /\ T.s[i].c # ExpCts(S, i)
           THEN {Sig("C03", "CompositionOffset", site, "value")} ELSE {})
     \cup (IF (\A i \in 1..n : ~Wide(S, i)) /\ T.ctts # (\E i \in 1..n : ExpCts(S, i) # 0)
           THEN {Sig("C03", "CttsPresence", site, IF T.ctts THEN "spurious" ELSE "missing")} ELSE {})
@@ -369,8 +374,8 @@ C16Movie(F) ==
     IF cfg.mode # "third" \/ ~("mvdur" \in DOMAIN F) \/ ~("tracks" \in DOMAIN F) THEN {}
     ELSE LET durs == { F.tracks[t].mdur : t \in 1..Len(F.tracks) }
              longest == IF durs = {} THEN 0 ELSE MaxOf(durs)
-         IN IF F.mvts = 1000 /\ Abs(F.mvdur * 90 - longest) > 90
-            THEN {Sig("C16", "MovieDuration", "mvhd", IF F.mvdur * 90 < longest THEN "shorter-than-longest-track" ELSE "longer-than-longest-track")}
+         IN IF F.mvts = 1000 /\ Abs(MulSat(F.mvdur, 90) - longest) > 90
+            THEN {Sig("C16", "MovieDuration", "mvhd", IF MulSat(F.mvdur, 90) < longest THEN "shorter-than-longest-track" ELSE "longer-than-longest-track")}
             ELSE {}
 
 (* ---- C15 ---- *)
@@ -397,17 +402,17 @@ C15Sigs(F) ==
 StartOf(T) ==
     IF "elst" \notin DOMAIN T \/ T.elst = << >> THEN 0
     ELSE LET e1 == T.elst[1] IN
-         IF e1.empty THEN (e1.sd * 90)                                        \* empty edit: movie timescale 1000 -> ticks
+         IF e1.empty THEN MulSat(e1.sd, 90)                                        \* empty edit: movie timescale 1000 -> ticks
                           - (IF Len(T.elst) >= 2 THEN T.elst[2].mt ELSE 0)
          ELSE - e1.mt
-Pres(T, i) == StartOf(T) + SumSeq([k \in 1..(i-1) |-> T.s[k].d]) + T.s[i].c
+Pres(T, i) == Sat(Sat(StartOf(T) + SumSeq([k \in 1..(i-1) |-> SDur(T, k)])) + SCts(T, i))
 
 C09Sigs(F) ==
     IF Len(F.tracks) < 2 \/ v = << >> \/ a = << >> THEN {}
     ELSE LET TV == F.tracks[1]  TA == F.tracks[2]
              n == IF Len(a) < NSamp(TA) THEN Len(a) ELSE NSamp(TA)
              ok == NSamp(TV) >= 1 /\ "d" \in DOMAIN TV.s[1] /\ \A j \in 1..n : "d" \in DOMAIN TA.s[j]
-             err(j) == UnitsPerTick * (Pres(TA, j) - Pres(TV, 1)) - (a[j].p3 - v[1].p3)
+             err(j) == MulSat(Sat(Pres(TA, j) - Pres(TV, 1)), UnitsPerTick) - (a[j].p3 - v[1].p3)
          IN IF ~ok \/ v[1].pt = SAT \/ (\E j \in 1..n : a[j].pt = SAT) THEN {}
             ELSE IF \A j \in 1..n : Abs(err(j)) <= UnitsPerTick THEN {}
             ELSE IF \A j \in 1..n : Abs(err(j) - err(1)) <= 2 * UnitsPerTick
